@@ -257,6 +257,23 @@ def substitute_function(fn) -> int:
                                                                                                for t_ in x.targets for y in ast.walk(t_))), None)
                     if dst is not None and _before(dst, st):
                         stable_roots.add(root)
+            # ... or the variable of the loop the alias lives in (`for gen in gens: target = gen.target.id`), used only inside that loop
+            for f in free:
+                root = f.split(".")[0]
+                if "." not in f or root in stable_roots:
+                    continue
+                lp = getattr(st, "_parent", None)
+                while lp is not None and lp is not fn:
+                    if isinstance(lp, (ast.For, ast.AsyncFor)) and any(isinstance(x, ast.Name) and x.id == root for x in ast.walk(lp.target)):
+                        break
+                    lp = getattr(lp, "_parent", None)
+                if lp is None or lp is fn:
+                    continue
+                other_stores = [x for x in _own_nodes(fn) if isinstance(x, ast.Name) and x.id == root and isinstance(x.ctx, (ast.Store, ast.Del))
+                                and not any(x is y for y in ast.walk(lp.target))]
+                inside = {id(x) for x in ast.walk(lp)}
+                if not other_stores and all(id(x) in inside for x in _own_nodes(fn) if isinstance(x, ast.Name) and x.id == name):
+                    stable_roots.add(root)
             for s_ in stored:
                 if s_ == name or s_ in single_before or s_ in stable_roots:
                     continue
@@ -1080,6 +1097,49 @@ def inline_copied_templates(prog) -> int:
     return total
 
 
+def desugar_any_all_with_walrus(fn) -> int:
+    """`return any(<elt with (x := E)> for t in IT [if C])`  ->  the loop it abbreviates
+    (`for t in IT: [if C:] if <elt>: return True` / `return False`; dually for all). Only generator expressions that contain an
+    assignment expression are rewritten: there the expression form hides a statement the rules need to see."""
+    done = 0
+    for holder in [fn] + list(_own_nodes(fn)):
+        for attr in ("body", "orelse", "finalbody"):
+            blk = getattr(holder, attr, None)
+            if not isinstance(blk, list):
+                continue
+            for i, st in enumerate(list(blk)):
+                if not (isinstance(st, ast.Return) and isinstance(st.value, ast.Call) and isinstance(st.value.func, ast.Name) and st.value.func.id in ("any", "all")
+                        and len(st.value.args) == 1 and not st.value.keywords and isinstance(st.value.args[0], (ast.GeneratorExp, ast.ListComp))):
+                    continue
+                g = st.value.args[0]
+                if len(g.generators) != 1 or g.generators[0].is_async or not any(isinstance(n, ast.NamedExpr) for n in ast.walk(g)):
+                    continue
+                is_any = st.value.func.id == "any"
+                gen = g.generators[0]
+                test = g.elt if is_any else ast.UnaryOp(op=ast.Not(), operand=g.elt)
+                inner = ast.If(test=test, body=[ast.Return(value=ast.Constant(value=is_any))], orelse=[])
+                body = [inner]
+                for c in reversed(gen.ifs):
+                    body = [ast.If(test=c, body=body, orelse=[])]
+                loop = ast.For(target=gen.target, iter=gen.iter, body=body, orelse=[])
+                # comprehension targets are Store context already
+                tail = ast.Return(value=ast.Constant(value=not is_any))
+                for new in (loop, tail):
+                    ast.copy_location(new, st)
+                    ast.fix_missing_locations(new)
+                    for y in ast.walk(new):
+                        if hasattr(st, "_module") and not hasattr(y, "_module"):
+                            y._module = st._module
+                k = next(k for k, b in enumerate(blk) if b is st)
+                blk[k:k + 1] = [loop, tail]
+                done += 1
+    if done:
+        for node in ast.walk(fn):
+            for child in ast.iter_child_nodes(node):
+                child._parent = node
+    return done
+
+
 def _literal(v):
     """AST of an immutable constant value, or None."""
     if isinstance(v, (str, bytes, int, float, bool, type(None))):
@@ -1392,6 +1452,7 @@ def run(prog) -> int:
         changed = 0
         for node in ast.walk(m.tree):
             if isinstance(node, (ast.FunctionDef, ast.AsyncFunctionDef)):
+                changed += desugar_any_all_with_walrus(node)
                 changed += hoist_walrus(node)
                 changed += split_chained_assignments(node)
                 changed += split_tuple_assignments(node)
